@@ -355,7 +355,16 @@ func (f fspec) paramWire(i int) string {
 // paramKind: its kind code
 func (f fspec) paramKind(i int) string { return kindCode(f.paramWire(i)) }
 
+func caseJSON(c kase) string {
+	b, _ := json.Marshal(c)
+	return string(b)
+}
+
 func oracle(c kase, res implResult, rep *hx.Report) {
+	if c.Route == "hist" {
+		oracleHist(c, res, rep)
+		return
+	}
 	t := c.target()
 	cj, _ := json.Marshal(c)
 	fail := func(class, oracleName, want, got string) {
